@@ -535,6 +535,8 @@ func tryReplay(env *Env, r *run.Result, rf *ReplayFile) bool {
 		switch o.Replay {
 		case "orderlaw":
 			src = orderLawTest(pkgName, o, c)
+		case "chain":
+			src = chainTest(o, c)
 		default:
 			continue
 		}
